@@ -193,11 +193,12 @@ pub fn is_valid_path(path: &str) -> bool {
                 separators = 2;
             }
             // The start of an identifier
-            c if separators % 2 == 0 && is_xid_start(c) => {
+            c if separators % 2 == 0 && (c == '_' || is_xid_start(c)) => {
                 separators = 0;
             }
             // The middle of an identifier
-            c if is_xid_continue(c) => (),
+            // This is only valid when we're not in or just after a separator
+            c if separators == 0 && is_xid_continue(c) => (),
             // An invalid character
             _ => return false,
         }
